@@ -82,9 +82,22 @@ def sweepModel (r : Reg) : String :=
     if id ≤ TypeId._TypeInterfaceMax then (interfaceTraits r id).map (·.name) else (metatypeTraits r id).map (·.name)
   s!"traits={t} names={n}"
 
+/-- `descOf s` / `namedOf s` for all ids at once (one pass over the history instead of one search per id;
+    ids are unique, the first entry of an id wins as in `List.find?`) -/
+def specTables (s : RegSpec.State) : Array (Option Entry) :=
+  s.foldl (fun a e => if e.id ≤ sweepMax then (if (a.getD e.id none).isNone then a.set! e.id (some e) else a) else a)
+    (Array.replicate (sweepMax + 1) none)
+
 def sweepSpec (s : RegSpec.State) : String :=
-  let t := listing fun id => (descOf s id).map attrText
-  let n := namesListing fun id => (namedOf s (id ≤ TypeId._TypeInterfaceMax) id).map (·.1)
+  let tab := specTables s
+  let t := listing fun id =>
+    match tab.getD id none with
+    | some e => some (attrText e.desc)
+    | none => (builtinDesc id).map attrText
+  let n := namesListing fun id =>
+    match tab.getD id none with
+    | some e => if e.kind.named then some e.name else none
+    | none => (namedOf [] (id ≤ TypeId._TypeInterfaceMax) id).map (·.1)
   s!"traits={t} names={n}"
 
 def fmtNamed : Option Named → String
